@@ -204,6 +204,11 @@ def reference(prog, pred, budget=150000):
         return 'ref_too_big', None, None, info
     except ref.Ambiguous:
         return 'ref_ambiguous', None, None, info
+    except (ref.Stuck, ref.Unready):
+        # the reference finds no evaluation order (a generated rule whose variable is
+        # bound only through an equation on itself): outside the range-restricted domain,
+        # a generator slip - counted, nothing asserted
+        return 'ref_stuck_not_range_restricted', None, None, info
     info['n_exp'] = len(exp)
     if len(exp) > MAX_ROWS:
         return 'result_too_large', None, None, info
